@@ -3,7 +3,7 @@
    Model.v (pointer-level ownership model: crew handle, MovedFrom state, manager carried by every block).
    The extracted model is run against the real containers on every ./check (T-cor). *)
 From Coq Require Import ZArith List Bool.
-From C14 Require Import PropagationModel Model Proofs.
+From C14 Require Import PropagationModel Model Proofs Bodies BodiesProofs.
 Import ListNotations.
 Local Open Scope Z_scope.
 
@@ -266,3 +266,134 @@ Print Assumptions C14_copy_independent_array.
 Theorem C14_wrong_manager_detected : forall m m' id w, m <> m' -> dealloc m (id, m') w = WrongMgr.
 Proof. exact dealloc_wrong_manager. Qed.
 Print Assumptions C14_wrong_manager_detected.
+
+(* ---- (6) the boundary of the claim about moved-from objects (round 2) --------------------------------------------- *)
+(* GUARANTEED: C14_moved_from_ops_total_native / _stdish above -- destroy, clear, swap, assignment INTO, usable again.
+   NOT guaranteed (and really failing, for every allocator type, every kind): using a moved-from container as the
+   SOURCE of a stdish move / copy assignment or of X(X&&, alloc), copy-constructing from it, initializer-list
+   assignment into it, insertion, lookup -- each dereferences the null crew. *)
+Theorem C14_moved_from_not_a_source :
+  forall wk tr k multi c v vs al w,
+    w_move_assign wk tr c MovedFrom w = NullCrew /\
+    w_copy_assign wk tr c MovedFrom w = NullCrew /\
+    w_create wk tr MovedFrom al w = NullCrew /\
+    cc_copy_ctor k MovedFrom w = NullCrew /\
+    cc_copy_ctor_mm k MovedFrom al w = NullCrew /\
+    cc_copy_assign k c MovedFrom w = NullCrew /\
+    w_assign_ilist wk multi MovedFrom vs w = NullCrew /\
+    cc_insert k multi MovedFrom v w = NullCrew /\
+    cc_find MovedFrom v w = NullCrew.
+Proof. exact moved_from_not_a_source. Qed.
+Print Assumptions C14_moved_from_not_a_source.
+
+(* native containers may even be moved FROM again (the crews are just exchanged) *)
+Theorem C14_moved_from_native_move_source :
+  forall k dst w, cc_wf dst -> exists w', cc_move_assign k dst MovedFrom w = Ok (MovedFrom, MovedFrom) w'.
+Proof. exact moved_from_native_move_source. Qed.
+Print Assumptions C14_moved_from_native_move_source.
+
+(* vm_compute witnesses, std::allocator-like traits: what is not guaranteed fails, what is guaranteed works *)
+Theorem C14_moved_from_boundary_witnesses :
+  w_move_assign WSet std_alloc_traits some_set MovedFrom w0 = NullCrew /\
+  cc_copy_ctor KTree MovedFrom w0 = NullCrew /\
+  w_assign_ilist WSet false MovedFrom [1; 2] w0 = NullCrew /\
+  cc_insert KTree false MovedFrom 5 w0 = NullCrew /\
+  cc_find MovedFrom 5 w0 = NullCrew /\
+  w_move_assign WSet std_alloc_traits MovedFrom some_set w0 = Ok (some_set, MovedFrom) w0 /\
+  (exists c w, w_assign_ilist WSet false some_set [1; 2] w0 = Ok c w /\ items_of c = [1; 2]).
+Proof. exact boundary_witnesses. Qed.
+Print Assumptions C14_moved_from_boundary_witnesses.
+
+(* ---- (7) structured bodies: the unusual states as model states (round 2) -------------------------------------------- *)
+(* Copy is DEEP for every kind of body: chain of bucket arrays (any number of generations), tree with node params and
+   nodes of any depth, multimap with value arrays and value-less keys, DataTable with rows and a freeRaws list.  Every
+   bucket array / node / node-params block / value array / raw / crew block of the copy is allocated by this call
+   through the requested manager; no block is shared with the source; the items are the same; a hash table is rebuilt
+   as at most one generation; a tree keeps its exact shape; every key (value-less ones included) is copied; the node
+   pools of the copy point to the copy's own crew. *)
+Theorem C14_copy_is_deep_structured :
+  forall k cr b m w,
+    Forall (fun x => fst x < next w) (s_blocks (SOwned cr b)) ->
+    exists cr' b' w',
+      s_copy k (SOwned cr b) m w = Ok (SOwned cr' b') w' /\
+      cmgr cr' = m /\ sb_items b' = sb_items b /\
+      fresh_for m (next w) (next w') (s_blocks (SOwned cr' b')) /\
+      (forall x y, In x (s_blocks (SOwned cr' b')) -> In y (s_blocks (SOwned cr b)) -> fst x <> fst y) /\
+      (length (gen_counts b') <= 1)%nat /\
+      (sb_items b <> [] -> tree_shape b' = tree_shape b) /\
+      key_shape b' = key_shape b /\ valueless b' = valueless b /\
+      pools_okb (SOwned cr' b') = true /\
+      items_of (abs (SOwned cr' b')) = items_of (abs (SOwned cr b)).
+Proof. exact s_copy_deep. Qed.
+Print Assumptions C14_copy_is_deep_structured.
+
+(* Move steals the whole graph (generations, nodes, pools, value arrays, rows, freeRaws) and agrees with the abstract
+   model; swap exchanges the crews together with everything that points into them. *)
+Theorem C14_move_steals_graph :
+  forall src,
+    s_move_ctor src = (src, SMovedFrom) /\
+    (abs (fst (s_move_ctor src)), abs (snd (s_move_ctor src))) = cc_move_ctor (abs src) /\
+    pools_okb (fst (s_move_ctor src)) = pools_okb src /\
+    gen_counts (s_body (fst (s_move_ctor src))) = gen_counts (s_body src) /\
+    tree_shape (s_body (fst (s_move_ctor src))) = tree_shape (s_body src) /\
+    key_shape (s_body (fst (s_move_ctor src))) = key_shape (s_body src).
+Proof. exact s_move_steals_graph. Qed.
+Print Assumptions C14_move_steals_graph.
+
+Theorem C14_swap_exchanges_crews_with_pools :
+  forall a b,
+    s_swap a b = (b, a) /\
+    (abs (fst (s_swap a b)), abs (snd (s_swap a b))) = cc_swap (abs a) (abs b) /\
+    (pools_okb a = true -> pools_okb b = true ->
+     pools_okb (fst (s_swap a b)) = true /\ pools_okb (snd (s_swap a b)) = true).
+Proof. exact s_swap_exact. Qed.
+Print Assumptions C14_swap_exchanges_crews_with_pools.
+
+(* c7fda03: TreeSet::MergeTo into an empty set with an equal manager (= Swap) keeps every node pool with the crew that
+   holds its manager; exchanging only root and node params (the earlier code) does not, whenever the crews differ. *)
+Theorem C14_merge_to_empty_keeps_pools :
+  forall src dst,
+    pools_okb src = true -> pools_okb dst = true ->
+    pools_okb (fst (s_merge_to_empty src dst)) = true /\ pools_okb (snd (s_merge_to_empty src dst)) = true /\
+    s_items (snd (s_merge_to_empty src dst)) = s_items src /\ s_items (fst (s_merge_to_empty src dst)) = s_items dst.
+Proof. exact merge_to_empty_keeps_pools. Qed.
+Print Assumptions C14_merge_to_empty_keeps_pools.
+
+Theorem C14_merge_to_empty_old_refuted :
+  forall scr pb ns dcr db,
+    crew_id scr <> crew_id dcr ->
+    pools_okb (SOwned scr (STree (Some (pb, crew_id scr)) ns)) = true /\
+    pools_okb (snd (s_merge_to_empty_old (SOwned scr (STree (Some (pb, crew_id scr)) ns)) (SOwned dcr db))) = false.
+Proof. exact merge_to_empty_old_refuted. Qed.
+Print Assumptions C14_merge_to_empty_old_refuted.
+
+(* destroying a structured container returns every block of its graph through its own manager *)
+Theorem C14_destroy_structured :
+  forall cr b w, wf_blocks (cmgr cr) (s_blocks (SOwned cr b)) -> exists w', s_destroy (SOwned cr b) w = Ok tt w'.
+Proof. exact s_destroy_ok. Qed.
+Print Assumptions C14_destroy_structured.
+
+(* ---- (8) DataTable (round 2; defects found by this check, fixed as c9f565a and fc18ee9) ---------------------------- *)
+(* DataTable::Swap (hence both assignments): each table's raw pool keeps using the manager stored in the crew the table
+   holds ... *)
+Theorem C14_table_swap_keeps_pool :
+  forall a b, tbl_ok a = true -> tbl_ok b = true ->
+    tbl_ok (fst (tbl_swap a b)) = true /\ tbl_ok (snd (tbl_swap a b)) = true.
+Proof. exact table_swap_keeps_pool. Qed.
+Print Assumptions C14_table_swap_keeps_pool.
+
+(* ... which the pre-fc18ee9 MemPool::Data::Swap (no exchange for managers that compare equal) violated for any two
+   tables with different crews: both pools end up on the OTHER table's crew *)
+Theorem C14_table_swap_old_refuted :
+  forall ca cb, ca <> cb ->
+    tbl_ok (ca, ca) = true /\ tbl_ok (cb, cb) = true /\
+    tbl_ok (fst (tbl_swap_old true (ca, ca) (cb, cb))) = false /\
+    tbl_ok (snd (tbl_swap_old true (ca, ca) (cb, cb))) = false.
+Proof. exact table_swap_old_refuted. Qed.
+Print Assumptions C14_table_swap_old_refuted.
+
+(* DataTable::Clear on a moved-from table: a no-op now (c9f565a), a null-crew dereference before *)
+Theorem C14_table_clear_moved_from :
+  forall w, cc_clear KTable MovedFrom w = Ok MovedFrom w /\ cc_clear_table_old MovedFrom w = NullCrew.
+Proof. exact table_clear_moved_from. Qed.
+Print Assumptions C14_table_clear_moved_from.
